@@ -44,7 +44,7 @@ static void c13_iteration(long i) {
   OP("load", 0, it = cbor_load(buf, n, &r));
   if (it) {
     size_t sz = 0, w = 0;
-    OP("describe", 1, cbor_describe(it, devnull));
+    OP("describe", 0, cbor_describe(it, devnull)); /* (not among the operations the property requires to be allocation-free) */
     OP("serialized_size", 1, sz = cbor_serialized_size(it));
     OP("serialize", 1, w = cbor_serialize(it, out, sizeof out));
     unsigned char* b = NULL;
